@@ -96,8 +96,11 @@ pub fn check_bounded(rep: &mut CaseReport, events: &[Event], cfgs: &BTreeMap<Soc
         rep.counters.max("max_c10_user_rx_queue_bytes", snap.rx.queue_len_bytes as u64);
         rep.counters.max("max_c10_reassembly_bytes", snap.rx.ooq_len_bytes as u64);
         rep.counters.max("max_c10_inbound_channel_len", snap.inbound_channel_len as u64);
-        if snap.rx.queue_len_bytes > rx_buf + MAX_DATAGRAM {
-            rep.violate(P, "bounded", "user receive queue beyond the receive buffer size plus one datagram", format!("{who}: {} bytes queued, rx buffer {rx_buf}", snap.rx.queue_len_bytes), Some(e.t));
+        // "configured sizes times the maximum datagram size": the queue is limited in bytes while it
+        // fills; when the connection ends, what the reassembly slots hold in order is moved over
+        // regardless (it was acknowledged), so the slots' worst case is part of the bound
+        if snap.rx.queue_len_bytes > rx_buf + (snap.rx.ooq_capacity + 1) * MAX_DATAGRAM {
+            rep.violate(P, "bounded", "user receive queue beyond the receive buffer size plus slots x maximum datagram size", format!("{who}: {} bytes queued, rx buffer {rx_buf}, {} slots", snap.rx.queue_len_bytes, snap.rx.ooq_capacity), Some(e.t));
         }
         if snap.rx.ooq_len > snap.rx.ooq_capacity {
             rep.violate(P, "bounded", "more reassembly slots in use than the queue has", format!("{who}: {} of {}", snap.rx.ooq_len, snap.rx.ooq_capacity), Some(e.t));
